@@ -198,8 +198,13 @@ def c13() -> int:
 # ------------------------------------------------------------------------------------------------ C14
 
 
+_C14_PROCESS_LOG: list = []  # graphs this worker process has already routed on (state may survive in the library between them)
+
+
 def _c14_shard(shard) -> Dict[str, Any]:
     spec, part, nparts = shard
+    earlier = list(_C14_PROCESS_LOG[-6:])
+    _C14_PROCESS_LOG.append(spec)
     rn = build(spec)
     g = reference_graph(spec)  # the oracle's own copy: never handed to (or read from) the library
     nodes = sorted(g.nodes)
@@ -240,7 +245,7 @@ def _c14_shard(shard) -> Dict[str, Any]:
                 if len(out["findings"]) < 1:
                     out["findings"].append(
                         ("slower_than_optimum", f"route from node {u} to node {v} takes {t:.3f} s, the fastest path {best:.3f} s",
-                         {"network": list(spec), "from_node": u, "to_node": v})
+                         {"network": list(spec), "from_node": u, "to_node": v, "graphs_routed_earlier_in_this_process": [list(e) for e in earlier]})
                     )
     return out
 
@@ -314,6 +319,18 @@ def replay(body) -> int:
             print(f"{item[:-1]}: {item[-1]}")
         hit = bool(bad)
     else:
+        # same process history first (earlier graphs of that worker, whole sweeps), then the whole sweep on this graph: a defect
+        # that lives in state surviving between calls or networks replays as found
+        tup = lambda e: tuple(tuple(x) if isinstance(x, list) else x for x in e)
+        for e in rp.get("graphs_routed_earlier_in_this_process", []):
+            _c14_shard((tup(e), 0, 1))
+        sweep = _c14_shard((spec, 0, 1))
+        for f in sweep["findings"]:
+            print("in the sweep of this graph:", f[1])
+        if sweep["findings"]:
+            print(f"VIOLATION property={body['property']} replay={body.get('_path')}")
+            return 1
+        rn = build(spec)
         g = reference_graph(spec)
         u, v = rp["from_node"], rp["to_node"]
         dist = dijkstra(g, u)
